@@ -377,3 +377,51 @@ pub fn replay_faults<W: Write>(out: &mut W, opts: &HashMap<String, String>) {
         writeln!(out, "F|{}|{}|{}|{}|=>|{};nops={}", f[1], f[2], f[3], k, res, nops).unwrap();
     }
 }
+
+// ---------------------------------------------------------------------------------------------
+// Engine `W` under forced schedules (C06): `--threads N` invocations with the baton scheduler hook.
+// A probe run (free run, one worker at a time) records which workers make how many steps; then the
+// same workspace is run again under random permutations of those steps.
+
+fn run_scheduled(tree: &Snap, inv: &[String], script: Option<Vec<String>>) -> (String, Vec<String>, usize) {
+    crate::verif::sched_reset(script);
+    let res = run_case(tree, &[inv.to_vec()]);
+    let (deviations, log) = crate::verif::sched_report();
+    crate::verif::sched_reset(None);
+    (res[0].clone(), log, deviations)
+}
+
+pub fn run_sched<W: Write>(out: &mut W, seed: u64, n: usize, opts: &HashMap<String, String>) {
+    std::fs::create_dir_all("/verif/build/tmp").unwrap();
+    let per_ws: usize = opts.get("perws").and_then(|s| s.parse().ok()).unwrap_or(3);
+    let mut rng = Rng::new(seed ^ 0x5c4ed);
+    let mut id = 0;
+    while id < n {
+        let rich = rng.chance(20);
+        let ws = gen_workspace(&mut rng, rich, 5, true);
+        let threads = *rng.pick(&[2usize, 2, 3, 4, 8, 16]);
+        let mut inv = gen_options(&mut rng, &[threads]);
+        inv.extend(gen_goal(&mut rng, &ws));
+        // probe
+        let (_, log, _) = run_scheduled(&ws.tree, &inv, Some(vec![]));
+        for j in 0..per_ws {
+            // the apply phase and the save phase are separated by a barrier: permute within each phase
+            let mut script: Vec<String> = Vec::new();
+            for phase in &["a:", "s:"] {
+                let mut part: Vec<String> = log.iter().filter(|l| l.starts_with(phase)).cloned().collect();
+                match j % 3 {
+                    0 => { for i in (1..part.len()).rev() { let k = rng.below(i + 1); part.swap(i, k); } }       // uniform shuffle
+                    1 => { part.sort(); if rng.chance(50) { part.reverse(); } }                                   // one worker after the other
+                    _ => { // long runs of one worker with a few random swaps: others run ahead
+                        part.sort();
+                        for _ in 0..(1 + part.len() / 4) { if part.len() > 1 { let a = rng.below(part.len()); let b = rng.below(part.len()); part.swap(a, b); } } }
+                }
+                script.extend(part);
+            }
+            let (res, _log2, deviations) = run_scheduled(&ws.tree, &inv, Some(script.clone()));
+            writeln!(out, "W|{}|{}|{}|=>|{};sched={};dev={}", id, render_tree(&ws.tree), if inv.is_empty() { "-".to_string() } else { inv.join(" ") },
+                     res, script.len(), deviations).unwrap();
+            id += 1;
+        }
+    }
+}
